@@ -56,6 +56,14 @@ def main():
     args = ap.parse_args()
     pid = args.pid.upper()
     seed = int(os.environ.get("VERIF_SEED", "0"))
+    replay_sig = None
+    if args.replay:
+        # checks are deterministic in (seed, tier): a replay re-runs the stored (seed, tier) and reports whether the
+        # stored violation signature shows up again; the stored concrete case is printed for the reader
+        rp = json.loads(Path(args.replay).read_text())
+        seed, args.tier, replay_sig = int(rp.get("seed", seed)), rp.get("tier", args.tier), rp.get("signature")
+        print(f"REPLAY {args.replay}: property={rp.get('property')} signature={replay_sig} seed={seed} tier={args.tier}")
+        print("  stored: " + str(rp.get("what"))[:500])
     ctx = core.Ctx(pid, args.tier, seed)
     try:
         mod = importlib.import_module(f"harness.checks.{pid.lower()}")
@@ -133,6 +141,10 @@ def main():
         )
         ctx.violations[-1]["nofail"] = True
 
+    if replay_sig is not None:
+        hit = [v for v in ctx.violations if v["sig"] == replay_sig]
+        print(f"REPLAY result: signature {'REPRODUCED' if hit else 'not reproduced'}")
+        return 1 if hit else 0
     known = core.load_known_findings()
     known_sigs = {(k["property"], k["signature"]): k for k in known.get("known", [])}
     rc = 0
